@@ -160,9 +160,13 @@ def it_next(I, ctx, it):
             it.fields[0] = BV(a.e + 1, a.bits, a.signed)
             return SOME(a)
         return NONE()
+    if isinstance(it, Agg) and it.name in ('Either', 'Left', 'Right') and len(it.fields) == 1:
+        return it_next(I, ctx, it.fields[0])
     if isinstance(it, Agg):
         # a crate type implementing Iterator
-        return I.call(ctx, ctx.cur_crate, f'<{it.name} as Iterator>::next', [ValRef(it)])
+        tgt = I.resolve_static(ctx.cur_crate, f'<{it.name} as Iterator>::next')
+        if tgt is None or tgt[0] != 'fn': raise Unsupported('Iterator::next on ' + repr(it)[:80])
+        return I.call_fn(ctx, tgt[1], [ValRef(it)])
     raise Unsupported('next on ' + repr(it)[:80])
 
 
@@ -203,8 +207,21 @@ def truthy(ctx, c):
 def values_eq(I, ctx, a, b):
     """structural equality of two values as a (python/z3) boolean, without forking"""
     a, b = deref(a), deref(b)
+    if a is b and not isinstance(a, (Agg,)): return True
     if isinstance(a, BV) and isinstance(b, BV):
         return bv_eq(a, b)
+    if isinstance(a, HMap) and isinstance(b, HMap):
+        if len(a.keys) != len(b.keys): return False
+        r = True
+        for k, v in zip(a.keys, a.vals):
+            i = b.find(I, ctx, k)
+            if i is None: return False
+            r = b_and(r, values_eq(I, ctx, v, b.vals[i]))
+            if r is False: return False
+        return r
+    if isinstance(a, HSet) and isinstance(b, HSet):
+        if len(a.items) != len(b.items): return False
+        return all(b.find(I, ctx, k) is not None for k in a.items)
     if is_bool(a) and is_bool(b):
         return (a == b) if isinstance(a, bool) and isinstance(b, bool) else (b_z(a) == b_z(b))
     if isinstance(a, Agg) and isinstance(b, Agg):
@@ -462,7 +479,7 @@ def _clone(I, ctx, r): return clone_value(deref(r))
 def _arc_clone(I, ctx, r): return deref1(r)
 @model('re:^(Rc|Arc|Box|std::rc::Rc|std::sync::Arc)::new$', 're:^<(Rc|Arc|Box)<.*> as From<.*>>::from$')
 def _box_new(I, ctx, v): return v
-@model('re:^<(Rc|Arc|Box|std::rc::Rc|std::sync::Arc)<.*> as (Deref|DerefMut|AsRef<.*>|Borrow<.*>)>::(deref|deref_mut|as_ref|borrow)$')
+@model('re:^<(Rc|Arc|Box|std::rc::Rc|std::sync::Arc)<.*> as (Deref|DerefMut|AsRef<.*>|AsMut<.*>|Borrow<.*>|BorrowMut<.*>)>::(deref|deref_mut|as_ref|as_mut|borrow|borrow_mut)$')
 def _box_deref(I, ctx, r):
     return r if isinstance(deref1(r), Ref) is False and isinstance(r, Ref) else r
 @model('re:^(?:core|std|alloc)::slice::<impl \\[.*\\]>::get$', 're:^(?:core|std|alloc)::slice::<impl \\[.*\\]>::get_mut$')
